@@ -145,6 +145,20 @@ class CodeGenerator(abc.ABC):
         else:
             self._condition = lambda x: True
 
+    def _check_printed_names(self) -> None:
+        """Raise if two model quantities are printed under the same name, e.g.
+        `lambda` (a reserved word that is printed with a trailing underscore)
+        and `lambda_`"""
+        printed: dict[str, str] = {}
+        ode = self.ode
+        for x in (*ode.states, *ode.parameters, *ode.intermediates, *ode.state_derivatives):
+            name = self.printer.doprint(x.symbol)
+            if printed.setdefault(name, x.name) != x.name:
+                raise exceptions.GotranxError(
+                    f"Cannot generate code for {ode.name!r}: {printed[name]!r} and {x.name!r} "
+                    f"are both printed as {name!r}"
+                )
+
     def _formatter(self, code: str) -> str:
         """Alternative formatter that takes a code snippet
         and output a formatted code snipped together with
